@@ -18,8 +18,18 @@ def peel_try(n):
     return n
 
 
-def lit_bool(n):
+def ok_payload(n):
+    """x of `Ok(x)` (the evaluator may wrap each arm's value, or the whole match, in Ok); n itself otherwise"""
     n = C.strip(n)
+    while isinstance(n, dict) and n.get("k") == "block" and not n.get("s") and n.get("e") is not None:
+        n = C.strip(n["e"])
+    if isinstance(n, dict) and n.get("k") == "call" and (n.get("ctor") or "").endswith("result::Result::Ok") and len(n.get("a") or []) == 1:
+        return C.strip(n["a"][0])
+    return n
+
+
+def lit_bool(n):
+    n = ok_payload(n)
     return n["v"] if isinstance(n, dict) and n.get("k") == "lit" and n.get("t") == "bool" else None
 
 
@@ -167,7 +177,7 @@ def run(ck, facts):
 
     a = arm_of("Not")
     if a:
-        b = C.strip(a["b"])
+        b = ok_payload(a["b"])
         ok = b.get("k") == "un" and b.get("op") == "Not" and rec_call(b["e"], binds(a)[0] if binds(a) else None)
         ck.expect(ok, "R1", "satisfies_cfg/Not", "!satisfies_cfg(c)", "`not(c)` is not evaluated as the negation of c", C.loc(sc, a.get("ln")))
     for name, cond_neg, ret_val, tail_val in (("Any", False, True, False), ("All", True, False, True)):
@@ -203,7 +213,7 @@ def run(ck, facts):
         ck.expect(lit_bool(a["b"]) is True, "R1", "satisfies_cfg/Star", "true", "`*` does not evaluate to true", C.loc(sc, a.get("ln")))
     a = arm_of("BackendName")
     if a:
-        b = peel_try(a["b"])
+        b = peel_try(ok_payload(a["b"]))
         ok = b.get("k") == "mcall" and b.get("m") == "is_backend" and C.strip(b["a"][0]).get("n") in binds(a)
         ck.expect(ok, "R1", "satisfies_cfg/BackendName", "is_backend(n)", "a bare backend name is not evaluated by is_backend(name)", C.loc(sc, a.get("ln")))
     a = arm_of("NameValue")
@@ -223,6 +233,12 @@ def run(ck, facts):
                 c = C.strip(x["c"])
                 if c.get("k") == "let" and c["pat"].get("v") == "Some" and C.strip(c["init"]).get("k") == "local" and C.strip(c["init"]).get("id") in param_ids:
                     tests.append((x["t"], x.get("e")))
+            elif x.get("k") == "match" and C.strip(x["s"]).get("k") == "local" and C.strip(x["s"]).get("id") in param_ids:
+                some_a = next((a_ for a_ in x["arms"] if a_["pat"].get("v") == "Some"), None)
+                none_a = next((a_ for a_ in x["arms"] if a_["pat"].get("v") == "None" or a_["pat"].get("k") == "wild"), None)
+                if some_a and none_a:
+                    sb = C.strip(some_a["b"])
+                    tests.append((sb if sb.get("k") == "block" else {"k": "block", "s": [], "e": sb}, none_a["b"]))
             elif x.get("k") == "block":
                 for i_, s_ in enumerate(x.get("s") or []):
                     if s_.get("k") == "letst" and s_.get("els") is not None and isinstance(s_.get("pat"), dict) and s_["pat"].get("v") == "Some" and \
